@@ -78,7 +78,9 @@ def build(rng, triple):
         if vs is None:
             return None
         vs += gen.rnd_avoid(rng, rng.randint(2, 10), forbid)
-        if sites(vs, V.cutter) == 2 and sites(vs, Nx.cutter) == (0 if ytk else 2):
+        # the vector is whatever the live structure says; the next-level sites it provides are counted on the
+        # product (fewer than two there is a failure of the design, not a reason to skip)
+        if sites(vs, V.cutter) == 2 and sites(vs, Nx.cutter) <= (0 if ytk else 2):
             break
     else:
         return None
@@ -109,6 +111,8 @@ def build(rng, triple):
 
 
 def check_case(ctx, case):
+    if "cassettes" in case:
+        return check_two_level(ctx, case)
     Nx = asm.cls_by_name("kit:" + case["triple"][2])
     reply, prod, _ = impl.run_asm(asm.asm_op(case))
     f = reply.split("\t")
@@ -116,8 +120,12 @@ def check_case(ctx, case):
         ctx.fail("{}: first-level assembly fails: {}".format(case["triple"][0], f[1]), case)
         return
     pseq = str(prod.seq)
-    if sites(pseq, Nx.cutter) != 2:
+    if sites(pseq, Nx.cutter) > 2:
         ctx.note("skipped-extra-next-level-site")
+        return
+    if sites(pseq, Nx.cutter) < 2:
+        ctx.fail("the product of a {} assembly carries {} {} site(s): the vector structure does not provide the two "
+                 "next-level sites".format(case["triple"][0], sites(pseq, Nx.cutter), Nx.cutter), case)
         return
     res = T.evaluate(Nx, pseq)
     insert = case["insert"]
@@ -138,8 +146,121 @@ def check_case(ctx, case):
     ctx.op(("EVAL", Nx, pseq, []), case)
 
 
+def build_two_level(rng, kit):
+    """entries -> two cassettes -> device, the cassettes keeping the id assemble() gives them by default"""
+    names = {"cidar": ("cidar.CIDARCassetteVector", "cidar.CIDAREntry", "cidar.CIDARCassette",
+                       "cidar.CIDARDeviceVector", "cidar.CIDARDevice"),
+             "ecoflex": ("ecoflex.EcoFlexCassetteVector", "ecoflex.EcoFlexEntry", "ecoflex.EcoFlexCassette",
+                         "ecoflex.EcoFlexDeviceVector", "ecoflex.EcoFlexDevice")}[kit]
+    CV, E, C, DV, D = [asm.cls_by_name("kit:" + n) for n in names]
+    forbid = tuple({x.cutter.site for x in (CV, DV)} | {gen.rc(x.cutter.site) for x in (CV, DV)})
+    k = abs(CV.cutter.ovhg)
+    ov = gen.distinct_overhangs(rng, k, 5, forbid)       # A, B, C level-2 junctions; X1, X2 inner junctions
+    if len(ov) < 5:
+        return None
+    A, B, Cc, X1, X2 = ov
+    cassettes = []
+    for (lo, hi, mid) in ((A, B, X1), (B, Cc, X2)):
+        for _ in range(100):
+            vs, vg = inst_with(rng, CV.structure(), lo, hi, None, forbid)
+            if vs is None:
+                return None
+            vs += gen.rnd_avoid(rng, rng.randint(2, 8), forbid)
+            if sites(vs, CV.cutter) == 2 and sites(vs, DV.cutter) <= 2:
+                break
+        else:
+            return None
+        chain = [(lo, mid), (mid, hi)] if rng.random() < 0.6 else [(lo, hi)]
+        ents = []
+        for (a, b) in chain:
+            for _ in range(100):
+                s, g = inst_with(rng, E.structure(), a, b, None, forbid)
+                if s is None:
+                    return None
+                s += gen.rnd_avoid(rng, rng.randint(0, 6), forbid)
+                if sites(s, E.cutter) == 2 and sites(g[0] + g[1], DV.cutter) == 0:
+                    break
+            else:
+                return None
+            ents.append(s)
+        cassettes.append({"vector": gen.rot(vs, rng.randrange(len(vs))),
+                          "entries": [gen.rot(s, rng.randrange(len(s))) for s in ents]})
+    for _ in range(100):
+        ds, dg = inst_with(rng, DV.structure(), A, Cc, None, forbid)
+        if ds is None:
+            return None
+        ds += gen.rnd_avoid(rng, rng.randint(2, 8), forbid)
+        if sites(ds, DV.cutter) == 2:
+            break
+    else:
+        return None
+    return {"kit": kit, "names": list(names), "cassettes": cassettes, "device_vector": gen.rot(ds, rng.randrange(len(ds)))}
+
+
+def check_two_level(ctx, case):
+    import warnings
+    CV, E, C, DV, D = [asm.cls_by_name("kit:" + n) for n in case["names"]]
+
+    def rec(word, rid):
+        return impl.CircularRecord(impl.Seq(word), id=rid, name=rid)
+    prods = []
+    with warnings.catch_warnings():
+        warnings.simplefilter("ignore")
+        for i, c in enumerate(case["cassettes"]):
+            v = CV(rec(c["vector"], "cv%d" % i))
+            es = [E(rec(w_, "e%d_%d" % (i, j))) for j, w_ in enumerate(c["entries"])]
+            try:
+                prods.append(v.assemble(*es))           # default id and name
+            except Exception as e:  # noqa
+                ctx.fail("two-level {}: cassette assembly {} fails: {}".format(case["kit"], i, type(e).__name__), case)
+                return
+        cas = [C(p) for p in prods]
+        if not all(c.is_valid() for c in cas):
+            if any(sites(str(p.seq), C.cutter) != 2 for p in prods):
+                ctx.note("two-level-skipped-extra-site")
+                return
+            ctx.fail("two-level {}: a cassette product is not accepted by {}".format(case["kit"], C.__name__), case)
+            return
+        targets = [str(c.target_sequence().seq) for c in cas]
+        dv = DV(rec(case["device_vector"], "dv"))
+        order = list(cas)
+        if case.get("swap"):
+            order.reverse()
+        try:
+            dev = dv.assemble(*order)
+        except Exception as e:  # noqa
+            ctx.fail("two-level {}: the cassettes cannot be assembled into the device vector: {}: {}".format(
+                case["kit"], type(e).__name__, str(e)[:80]), case)
+            return
+        dseq = str(dev.seq)
+        if sites(dseq, D.cutter) > 2:
+            ctx.note("two-level-skipped-extra-site")
+            return
+        res = T.evaluate(D, dseq)
+        joined = "".join(targets)
+        if res[0] != "valid":
+            ctx.fail("two-level {}: the device product is not accepted by {} ({})".format(case["kit"], D.__name__, res[0]), case)
+        elif joined not in res[3]:
+            ctx.fail("two-level {}: the target of the {} does not contain both cassette targets in chain order "
+                     "(target {!r}, cassette targets {})".format(case["kit"], D.__name__, res[3], targets), case)
+    ctx.note("two-level:" + case["kit"])
+    ctx.case(case, nontrivial=True)
+
+
 def run(ctx):
     rng = ctx.rng
+    for kit in ("cidar",):   # CIDAR: the next-level overhangs are the cassette vector's own (G1, G3)
+        made = 0
+        for _ in range(ctx.budget(40, 1500) * 3):
+            c2 = build_two_level(rng, kit)
+            if c2 is None:
+                ctx.note("two-level-build-failed:" + kit)
+                continue
+            c2["swap"] = rng.random() < 0.5
+            ctx.guard(check_two_level, c2)
+            made += 1
+            if made >= ctx.budget(40, 1500):
+                break
     per = ctx.budget(30, 1500)
     for triple in TRIPLES:
         made = 0
